@@ -2050,8 +2050,9 @@ class Mailbox:
             #       on the possible list of messages to delete. We do not
             #       delete all of the ones flagged \Delete, only the ones
             #       that are flagged and whose uid is in the list
-            #       `uid_msg_set`.
-            if uid_msg_set:
+            #       `uid_msg_set`. An empty list is a restriction to nothing,
+            #       it is not the same as no restriction (None).
+            if uid_msg_set is not None:
                 new_to_delete = []
                 new_uids_to_delete = []
                 for uid in uid_msg_set:
